@@ -532,6 +532,8 @@ func (c *Ctx) NameAlways(st *State, prefix string, t Term) Term {
 func (c *Ctx) Unbox(st *State, v Term, t types.Type) Term {
 	bn, un, id := c.Reg.boxName(t)
 	if len(st.qbinders) > 0 {
+		// under a binder no instance can be stated for v: state surjectivity once for the type
+		c.Reg.Axiom(fmt.Sprintf("(assert (forall ((a!%d Any)) (! (=> (= (tagof a!%d) %d) (= (%s (%s a!%d)) a!%d)) :pattern ((%s a!%d)))))", id, id, id, bn, un, id, id, un, id))
 		return T(c.Reg.SortOf(t), "(%s %s)", un, v.S)
 	}
 	// surjectivity instance: a value with tag T is the box of its payload
